@@ -204,6 +204,43 @@ def matrix_product_is_associative(L, R):
     return same_matrix(L, R)
 
 
+# ---------------------------------------------------------------- in-place operands may alias
+# `m @= n` equals `m @ n` also when both operands are one object (m @= m): the in-place product rewrites rows while
+# reading, so the aliased case needs its own obligation (all other lemmas use distinct objects).
+inplace_sq = REG.add(Lemma('inplace.matmul_with_itself', PROP, [
+    {'call': f'{M}:Matrix.__imatmul__', 'args': ['m', 'm'], 'result': 'res'},
+]))
+
+
+@inplace_sq.setup
+def _(h):
+    m = _sym_matrix(h, 'Q')
+    h.I.global_overrides = {'Py_Matrix': MAT, 'Py_Vec': ClassVal('Vec', M)}      # module-level aliases of the classes
+    return {'locals': dict(m=m), 'ghost': dict(M0=dict(m.fields))}
+
+
+@native
+def square_of(I, M0):
+    r = [[M0['_aa'], M0['_ab'], M0['_ac']], [M0['_ba'], M0['_bb'], M0['_bc']], [M0['_ca'], M0['_cb'], M0['_cc']]]
+    return [[sum(r[i][k] * r[k][j] for k in range(3)) for j in range(3)] for i in range(3)]
+
+
+@native
+def rows_equal(I, m, want):
+    got = rows(I, m)
+    return z3.And(*[to_z3(got[i][j], z3.RealVal(0)) == want[i][j] for i in range(3) for j in range(3)])
+
+
+@inplace_sq.ensures
+def result_is_the_square_of_the_original(res, M0):
+    return rows_equal(res, square_of(M0))
+
+
+@inplace_sq.ensures
+def result_is_the_same_object(res, m):
+    return res is m
+
+
 # ---------------------------------------------------------------- P-transpose
 transp = REG.add(Lemma('transpose.is_inverse_on_rotations', PROP, [
     {'call': f'{M}:MatrixBase.transpose', 'args': ['Mx'], 'result': 'T'},
@@ -430,6 +467,9 @@ for _c in PROOFS:
     _c.replay_fn = _witness
 
 MUTATIONS = [
+    dict(name='inplace_square_reads_overwritten_rows', file='math.py',
+         old="            if other is self:\n                # m @= m, we'd be reading rows that were already overwritten.\n                other = self.copy()\n",
+         new="", expect='inplace.matmul_with_itself'),
     dict(name='from_angle_sign', file='math.py', old="        rot._ac = -sin_p\n", new="        rot._ac = sin_p\n", expect='rot.from_angle'),
     dict(name='mat_mul_transposed_index', file='math.py',
          old="            self._aa * other._ab + self._ab * other._bb + self._ac * other._cb,",
